@@ -723,6 +723,120 @@ def parsed_tie_row(o):
             "several_variants_stored": sum(1 for b, l in compat if len([1 for sfx in PARSED_SUFFIXES if (b + sfx) in o["skel_at_pool"]]) > 1)}
     return (term, ctuple("true", "true", "true")), meta
 
+
+# ------------------------------------------------------------------ the "release" tie (ReleaseStage.v)
+def release_observe(m, o):
+    """observe the release rounds from outside: validate_release_files of the repository object is called once per
+    round; at every call skel's release files (size, mtime), the verdict and the upstream's request counters are
+    recorded.  Returns the function that removes the observer."""
+    from apt_mirror.repository import InvalidReleaseFilesException
+    repo, cfg, d = m.get_repository(), mirror_config(m), mirror_downloader(m)
+    root = cfg.skel_path / repo.get_mirror_path(cfg.encode_tilde)
+    relpaths = [str(p) for p in repo.release_files]
+    o["rel_paths"] = relpaths
+    o["rel_retries"] = int(cfg.release_files_retries)
+    o["rel_pre"] = {p: v for p, v in pool_listing(root, skip_dists=False).items() if p in relpaths}
+    rounds = o["rel_rounds"] = []
+    up = getattr(d, "upstream", None)
+    inner = repo.validate_release_files
+
+    def validate(*a, **k):
+        listing = {p: v for p, v in pool_listing(root, skip_dists=False).items() if p in relpaths}
+        rec = {"listing": listing, "counts": dict(up.counts) if up is not None else None, "valid": None}
+        rounds.append(rec)
+        try:
+            r = inner(*a, **k)
+        except InvalidReleaseFilesException:
+            rec["valid"] = False
+            raise
+        rec["valid"] = True
+        return r
+    object.__setattr__(repo, "validate_release_files", validate)
+
+    def restore():
+        try:
+            object.__delattr__(repo, "validate_release_files")
+        except AttributeError:
+            pass
+    return restore
+
+
+RELEASE_HEADER = "From AM.Model Require Import Base Path Download Stage Pipeline Converge RepoRun Deb822 PoolQueue Unpack ReleaseStage."
+RELEASE_DEFS = """
+Definition entry_ok (fs : lfs) (e : string * option (N * Z)) : bool :=
+  match lookup fs (fst e), snd e with
+  | None, None => true
+  | Some i, Some (n, z) => N.eqb (fsize i) n && match fmt i with Date d => Z.eqb d z | Local => true end
+  | _, _ => false
+  end.
+Definition listing_ok (fs : lfs) (l : list (string * option (N * Z))) : bool := forallb (entry_ok fs) l.
+(* the states after every round, from the building blocks of release_loop *)
+Fixpoint states (n i : nat) (relq : list dfile) (u : nat -> upstream) (skel : lfs) : list lfs :=
+  match n with
+  | O => []
+  | S n' => let '(rs, s1) := run_stage false relq (u i) skel in
+            let s2 := drop_unobtained relq rs s1 in s2 :: states n' (S i) relq u s2
+  end.
+Fixpoint all2 {A B} (f : A -> B -> bool) (a : list A) (b : list B) : bool :=
+  match a, b with [] , [] => true | x :: a', y :: b' => f x y && all2 f a' b' | _, _ => false end.
+(* (number of rounds, a round validated, an error is counted in the last round, skel's release files after every round) *)
+Definition m_release (c : list dfile * list upstream * nat * lfs * list (list (string * option (N * Z)) * bool))
+  : nat * bool * bool * bool :=
+  match c with (relq, us, retries, skel, obs) =>
+    let u := fun i => nth i us [] in
+    let validf := fun s => match find (fun o => listing_ok s (fst o)) obs with Some o => snd o | None => false end in
+    match release_stage retries relq u validf skel with
+    | (k, r) =>
+        (k, match r with Some _ => true | None => false end,
+         match r with Some (rs, _) => has_errors rs | None => false end,
+         all2 listing_ok (states (List.length obs) 0 relq u skel) (map fst obs))
+    end
+  end.
+Definition eq_release (x y : nat * bool * bool * bool) : bool :=
+  match x, y with (k1, a1, b1, c1), (k2, a2, b2, c2) => Nat.eqb k1 k2 && Bool.eqb a1 a2 && Bool.eqb b1 b2 && Bool.eqb c1 c2 end.
+"""
+
+
+def release_tie_row(o, files, faults):
+    """the release rounds of one repository of one real run as a ReleaseStage.release_stage case"""
+    from .common import cN, cZ, cstr, copt
+    if "rel_obs_error" in o or "rel_rounds" not in o:
+        return None, o.get("rel_obs_error", "not observed")
+    rounds = o["rel_rounds"]
+    if not rounds or any(r["valid"] is None or r["counts"] is None for r in rounds):
+        return None, "a round ended by an exception other than InvalidReleaseFilesException, or no simulated upstream"
+    # the verdict is a function of the release files' content; the model names a stored file by (size, date).  Rounds
+    # whose files have the same sizes but another verdict (a replaced file of the same length from a server that
+    # sends no usable date) cannot be told apart at that level: such runs are left to the loop tie and the oracles
+    for i in range(len(rounds)):
+        for j in range(i + 1, len(rounds)):
+            if rounds[i]["valid"] != rounds[j]["valid"] and \
+                    {p: v[0] for p, v in rounds[i]["listing"].items()} == {p: v[0] for p, v in rounds[j]["listing"].items()}:
+                return None, "ambiguous: same sizes, other verdict"
+    relq = [{"name": p, "variants": [{"paths": [p], "source": p, "size": 0}], "check_size": False,
+             "ignore_errors": False, "ignore_missing": True} for p in o["rel_paths"]]
+    fq, paths = c_queue(relq)
+    us = []
+    before = {}
+    for r in rounds:
+        shifted = {}
+        for p in paths:
+            sc = (faults or {}).get(p)
+            k = before.get(p, 0)
+            if sc is None:
+                continue
+            shifted[p] = {"first": list(sc.get("first", []))[k:], "rest": sc.get("rest", "good")}
+        us.append(c_upstream(paths, files, shifted))
+        before = r["counts"]
+    skel = clist("(%s, {| fsize := %s; fmt := Date %s |})" % (cstr(p), cN(sz), cZ(mt)) for p, (sz, mt) in sorted(o["rel_pre"].items()))
+    obs = clist(ctuple(clist(ctuple(cstr(p), copt(r["listing"].get(p), lambda t: ctuple(cN(t[0]), cZ(t[1])))) for p in paths),
+                       cbool(r["valid"])) for r in rounds)
+    term = ctuple(fq, clist(us), cnat(o["rel_retries"]), skel, obs)
+    ok = bool(rounds[-1]["valid"])
+    want = ctuple(cnat(len(rounds)), cbool(ok), cbool(bool(o.get("rel_err")) if ok else False), "true")
+    return (term, want), {"rounds": len(rounds), "valid": ok, "flavours": len(paths),
+                          "stale_before": sum(1 for p in o["rel_pre"] if p not in rounds[-1]["listing"])}
+
 class Instrument:
     """Wraps RepositoryMirror stage methods (from outside) to observe the flags the
     flow model takes as input."""
@@ -742,8 +856,17 @@ class Instrument:
             return str(m.get_repository().url)
 
         async def rel(m):
-            r = await inst.orig["download_release_files"](m)
             o = inst.obs.setdefault(key(m), {})
+            restore = None
+            try:
+                restore = release_observe(m, o)
+            except Exception as e:   # the observation must never disturb the run
+                o["rel_obs_error"] = repr(e)
+            try:
+                r = await inst.orig["download_release_files"](m)
+            finally:
+                if restore is not None:
+                    restore()
             o["release_valid"] = bool(r)
             o["rel_err"] = mirror_downloader(m).has_errors()
             return r
